@@ -31,6 +31,7 @@ fn main() {
                 }
             }
         }
+        Some("refserver") => oxv::refserver::serve(),
         _ => {
             out("usage: oxv run <ID> [--tier quick|thorough] | oxv replay <file>");
             2
